@@ -32,11 +32,16 @@ def behaviours(chk, label, consts, simulate=None, workers=12):
     return res["emits"]
 
 
-def presentation(beh, dt, zone="UTC", e0=None):
+def presentation(beh, dt, zone="UTC", e0=None, thr=(1.0, 1.0)):
+    """thr: factors on the two thresholds, inside the range consistent with the truth: drizzle carries 1 rain
+    unit and every storm step >= 2 (s in [1, 2) units); recession increments are negative, drizzle 0 and storm
+    steps >= 2 mm (j in [0, 2) mm per step)"""
     syden = beh["syden"]
     dt_h = dt / 3600.0
     pres = P.Presentation(dt=dt, e0=e0, s_real=(1.0 / syden) / dt_h, j_real=1.0 / dt_h, S=1, J=1, gap=1,
                           gap_rain=0, zone=zone)
+    pres.s_real *= thr[0]
+    pres.j_real *= thr[1]
     rec = []
     gaps = [e["n"] for e in beh["ev"] if e["type"] == "gap"]
     for k, st in enumerate(beh["rec"]):
@@ -58,9 +63,9 @@ def tstar(beh):
     return T
 
 
-def run_workflow(beh, dt, zone, e0, delta, wd, tag, ref=None, keep=False, et_of=None):
+def run_workflow(beh, dt, zone, e0, delta, wd, tag, ref=None, keep=False, et_of=None, thr=(1.0, 1.0)):
     """load, classify, set-zeta-grid, recession, rise; returns (wf, outcomes)"""
-    pres, rec = presentation(beh, dt, zone, e0)
+    pres, rec = presentation(beh, dt, zone, e0, thr)
     if et_of is not None:
         pres.et_of = et_of
     rain_rows, et_rows, level_rows = pres.series(rec)
@@ -175,7 +180,8 @@ def _worker(batch):
             delta = DELTAS[(idx // 3) % 3]
             zone = ZONES[(idx // 9) % 3]
             e0 = P.epoch_of(2011, 5, 17) + (idx % 7) * 86400 * 30
-            wf, outc = run_workflow(beh, dt, zone, e0, delta, wd, "h%d_%d" % (os.getpid(), idx))
+            thr = [(1.0, 1.0), (1.75, 0.25), (1.25, 1.9)][(idx // 27) % 3 if idx >= 27 else idx % 3]
+            wf, outc = run_workflow(beh, dt, zone, e0, delta, wd, "h%d_%d" % (os.getpid(), idx), thr=thr)
             try:
                 probs = judge_c06(beh, wf, outc, delta)
             except Exception as e:  # noqa
